@@ -212,8 +212,8 @@ def _r081(ctx: Ctx) -> None:
 
 QS = ['q0', 'q1', 'q2']
 STABS = {'s0': {'q0': 'X', 'q1': 'X'}, 's1': {'q1': 'Z', 'q2': 'Z'}}
-LOGX = [{'q0': 'X', 'q1': 'Y'}]
-LOGZ = [{'q2': 'Z', 'q1': 'Y'}]
+LOGX = [{'q0': 'X', 'q1': 'Y'}, {'q2': 'X'}]
+LOGZ = [{'q2': 'Z', 'q1': 'Y'}, {'q0': 'Z', 'q1': 'Z', 'q2': 'Z'}]
 TABLES = {'A': HADAMARD, 'B': XY}
 
 
